@@ -153,6 +153,8 @@ class World:
                     setattr(tgt, cmd["f"], val)
             elif op in ("setnested", "setref"):
                 setattr(self.resolve(cmd["e"]), cmd["f"], self.resolve(cmd["src"]))
+            elif op == "clearref":
+                setattr(self.resolve(cmd["e"]), cmd["f"], None)
             elif op == "copy":
                 self.hs.append(self.resolve(cmd["src"]).copy(_buffer=self.bufs[cmd["b"] - 1]))
             elif op == "move":
@@ -297,12 +299,20 @@ def replay_group(init, vi, hist, cmd, alts):
     diffs, drift, res = best
     tag = op + (":refused" if res == "refused" else "")
     seen, findings = set(), []
+    # one transition, one root cause: keep the clause class that explains the others (identity > values > aliasing > buffer)
+    for top in PRIORITY:
+        if any(d[0] == top for d in diffs):
+            diffs = [d for d in diffs if d[0] == top]
+            break
     for clause, where, detail in diffs:
         key = f"{tag}:{clause}:{where}"
         if key not in seen:
             seen.add(key)
             findings.append((key, f"after {_show(cmd)} [{res}{' ' + exc if exc else ''}]: {detail}"))
     return dict(status="violation" if findings else "ok", findings=findings, drift=drift, exc=exc)
+
+
+PRIORITY = ["handles", "unreadable", "mirror-identity", "mirror-value", "value-dressed", "value-xobject", "aliasing", "buffer"]
 
 
 def _show(cmd):
@@ -313,6 +323,8 @@ def _show(cmd):
         return f"{ex(cmd['e'])}.{cmd['f']} = <{cmd['v']}>"
     if op in ("setnested", "setref"):
         return f"{ex(cmd['e'])}.{cmd['f']} = {ex(cmd['src'])}"
+    if op == "clearref":
+        return f"{ex(cmd['e'])}.{cmd['f']} = None"
     if op == "copy":
         return f"{ex(cmd['src'])}.copy(_buffer=B{cmd['b']})"
     return f"{ex(cmd['e'])}.move(_buffer=B{cmd['b']})"
@@ -337,7 +349,7 @@ def _worker(task):
 
 # ----------------------------------------------------------------------------- TLC: export and model checking
 ALLW = '{"a","s","arr","k","z","h","x","y"}'
-CONST = "Scen = {scen} MaxDepth = {d} MaxH = {mh} Vals = {vals} WSlots = {ws} Bufs = {{1,2}} Bug = {bug}"
+CONST = "Scens = {scen} MaxDepth = {d} MaxH = {mh} Vals = {vals} WSlots = {ws} Bufs = {{1,2}} Bug = {bug}"
 INVS = "INVARIANT Mirror\nINVARIANT CopyIndependent\nINVARIANT PartsInside\nINVARIANT RefShares\n"
 PROPS = "INVARIANT MoveRefusal\nPROPERTY CopyEqual\nPROPERTY MovePreserves\nPROPERTY WriteLocal\nPROPERTY NestedStoresCopy\n"
 
@@ -389,14 +401,14 @@ def tlc_check(job):
 # per tier: exhaustive model checks (no export) and exports (replayed).  (scen, depth, MaxH, Vals, WSlots)
 TIERS = {
     "quick": dict(
-        check=[(s, 4, 3, "{1}", '{"a","x","arr"}') for s in (1, 2, 3, 4, 5, 6, 7)],
-        props=[(s, 2, 3, "{1,2}", ALLW) for s in (1, 2, 3, 4, 6)],
-        export=[(1, 3, 3, "{1}", '{"a","k"}'), (2, 3, 4, "{1}", '{"a","h"}'), (3, 3, 3, "{1}", '{"a","x","y"}'), (4, 3, 3, "{1}", '{"a","k"}'),
-                (5, 2, 3, "{1}", '{"a"}'), (6, 3, 4, "{1}", '{"a"}'), (7, 3, 3, "{1,2}", ALLW)],
+        check=[((1, 2, 3, 4, 5, 6, 7), 4, 3, "{1}", '{"a","x","arr"}', 6)],
+        props=[((1, 2, 3, 4, 6), 2, 3, "{1,2}", ALLW, 3)],
+        export=[(1, 3, 3, "{1}", '{"a","k"}'), (7, 3, 3, "{1}", ALLW), (2, 4, 3, "{1}", '{"a"}'), (3, 3, 3, "{1}", '{"a","x","y"}'),
+                (4, 4, 3, "{1}", '{"a"}'), (5, 2, 3, "{1}", '{"a"}'), (6, 4, 3, "{1}", '{"a"}')],
         variants_per_group=1),
     "thorough": dict(
-        check=[(s, 6, 4, "{1}", '{"a","x"}') for s in (2, 3, 4, 6, 7)] + [(1, 5, 3, "{1}", '{"a"}'), (5, 5, 3, "{1}", '{"a"}')],
-        props=[(s, 3, 3, "{1,2}", ALLW) for s in (1, 2, 3, 4, 5, 6, 7)],
+        check=[((2, 3, 4, 6, 7), 6, 4, "{1}", '{"a","x"}', 6), ((1, 5), 5, 3, "{1}", '{"a"}', 6)],
+        props=[((1, 2, 3, 4, 5, 6, 7), 3, 3, "{1,2}", ALLW, 4)],
         export=[(1, 4, 3, "{1}", '{"a","k"}'), (2, 4, 4, "{1}", '{"a","h"}'), (3, 4, 3, "{1}", '{"a","x","y"}'), (4, 4, 3, "{1}", '{"a","k"}'),
                 (5, 3, 3, "{1}", '{"a"}'), (6, 4, 4, "{1}", '{"a"}'), (7, 4, 3, "{1,2}", ALLW),
                 (1, 3, 3, "{1,2}", ALLW), (3, 3, 3, "{1,2}", ALLW)],
@@ -405,7 +417,8 @@ TIERS = {
 
 
 def consts(scen, d, mh, vals, ws, bug="FALSE"):
-    return CONST.format(scen=scen, d=d, mh=mh, vals=vals, ws=ws, bug=bug)
+    scen = (scen,) if isinstance(scen, int) else scen
+    return CONST.format(scen="{" + ",".join(map(str, scen)) + "}", d=d, mh=mh, vals=vals, ws=ws, bug=bug)
 
 
 # ----------------------------------------------------------------------------- the check
@@ -431,79 +444,110 @@ def check(pid, argv=None):
         run.finish()
     t1 = time.time()
     jobs_x = [(f"s{s}d{d}", consts(s, d, mh, vals, ws)) for s, d, mh, vals, ws in tier["export"]]
-    jobs_c = [(f"inv-s{s}d{d}", consts(s, d, mh, vals, ws), False, 2, False) for s, d, mh, vals, ws in tier["check"]]
-    jobs_c += [(f"prop-s{s}d{d}", consts(s, d, mh, vals, ws), True, 1, False) for s, d, mh, vals, ws in tier["props"]]
+    jobs_c = [(f"inv-s{''.join(map(str, s))}d{d}", consts(s, d, mh, vals, ws), False, w, False) for s, d, mh, vals, ws, w in tier["check"]]
+    jobs_c += [(f"prop-s{''.join(map(str, s))}d{d}", consts(s, d, mh, vals, ws), True, w, False) for s, d, mh, vals, ws, w in tier["props"]]
     jobs_c += [("selftest-bug", consts(1, 2, 3, "{1}", '{"a"}', bug="TRUE"), False, 1, True)]
-    mc = {}
-    with ThreadPoolExecutor(max_workers=min(C.NCPU, 10)) as ex:
-        fx = [ex.submit(tlc_export, j) for j in jobs_x]
-        fc = [ex.submit(tlc_check, j) for j in jobs_c]
-        exported = [f.result() for f in fx]
-        for f in fc:
-            tag, res = f.result()
-            mc[tag] = dict(states=res["distinct"], generated=res["generated"], wall=round(res["wall"], 1),
-                           **({"violated_as_expected": res["violated"][:1]} if tag == "selftest-bug" else {}))
-            if tag != "selftest-bug":
-                run.add_tlc(res)
-    run.notes["model_checking"] = mc
-    run.notes["t_tlc"] = round(time.time() - t1, 1)
-
-    # ---- replay
-    t1 = time.time()
-    rng = random.Random(run.seed + 18)
-    tasks, meta = [], {}
-    gid = 0
+    mc, xstats, meta, results = {}, {}, {}, []
     per_op = collections.Counter()
-    xstats = {}
-    for tag, init, groups, n, res in exported:
-        run.add_tlc(res)
-        xstats[tag] = dict(transitions=n, groups=len(groups), states=res["distinct"], wall=round(res["wall"], 1))
-        cur = []
-        for hist, cmd, alts in groups:
-            vis = [gid % len(VARIANTS)] if tier["variants_per_group"] == 1 else rng.sample(range(len(VARIANTS)), tier["variants_per_group"])
-            for vi in vis:
-                cur.append((gid, vi, hist, cmd, alts))
-            meta[gid] = (tag, init, hist, cmd, alts)
-            per_op[cmd["op"] + ":" + "/".join(sorted({a[0] for a in alts}))] += 1
-            gid += 1
-            if len(cur) >= 400:
-                tasks.append((tag, init, cur))
+    rng = random.Random(run.seed + 18)
+    gid = 0
+    import multiprocessing
+    from concurrent.futures import as_completed
+    pool = ProcessPoolExecutor(max_workers=min(C.NCPU, 10), mp_context=multiprocessing.get_context("spawn"))
+    try:
+        with ThreadPoolExecutor(max_workers=min(C.NCPU, 10)) as ex:
+            fx = [ex.submit(tlc_export, j) for j in jobs_x]          # exports first: their replay overlaps the model checking
+            fc = [ex.submit(tlc_check, j) for j in jobs_c]
+            rfut = []
+            for f in as_completed(fx):
+                tag, init, groups, n, res = f.result()
+                run.add_tlc(res)
+                xstats[tag] = dict(transitions=n, groups=len(groups), states=res["distinct"], wall=round(res["wall"], 1))
                 cur = []
-        if cur:
-            tasks.append((tag, init, cur))
+                for hist, cmd, alts in groups:
+                    if tier["variants_per_group"] == 1:
+                        vis = [gid % len(VARIANTS)]
+                    else:
+                        vis = rng.sample(range(len(VARIANTS)), tier["variants_per_group"])
+                    for vi in vis:
+                        cur.append((gid, vi, hist, cmd, alts))
+                    meta[gid] = (tag, init, hist, cmd, alts)
+                    per_op[cmd["op"] + ":" + "/".join(sorted({a[0] for a in alts}))] += 1
+                    gid += 1
+                    if len(cur) >= 300:
+                        rfut.append(pool.submit(_worker, (tag, init, cur)))
+                        cur = []
+                if cur:
+                    rfut.append(pool.submit(_worker, (tag, init, cur)))
+            run.notes["t_export"] = round(time.time() - t1, 1)
+            for f in fc:
+                tag, res = f.result()
+                mc[tag] = dict(states=res["distinct"], generated=res["generated"], wall=round(res["wall"], 1),
+                               **({"violated_as_expected": res["violated"][:1]} if tag == "selftest-bug" else {}))
+                if tag != "selftest-bug":
+                    run.add_tlc(res)
+            run.notes["t_tlc"] = round(time.time() - t1, 1)
+            for f in rfut:
+                tag, res = f.result()
+                results += res
+    finally:
+        pool.shutdown(wait=True, cancel_futures=True)
+    run.notes["model_checking"] = mc
     run.notes["export"] = xstats
     run.notes["groups_per_op"] = dict(per_op)
-    results = []
-    with ProcessPoolExecutor(max_workers=min(C.NCPU, 12)) as ex:
-        for tag, res in ex.map(_worker, tasks):
-            results += res
-    run.notes["t_replay"] = round(time.time() - t1, 1)
+    run.notes["t_tlc_and_replay"] = round(time.time() - t1, 1)
 
-    # ---- verdicts; a violation whose history already contains a violating step is a consequence, not a new finding
+    # ---- verdicts.  A violation is attributed to the FIRST step of its history that violates with the same realisation
+    # (re-checked here, because in the quick tier each transition is replayed with one realisation only); later steps of
+    # such a history are consequences, not new findings.
     status = collections.Counter()
-    bad = {}
+    drift = collections.Counter()
+    J = lambda x: json.dumps(x, sort_keys=True)
+    index = {(m[0], J([h["cmd"] for h in m[2]]), J(m[3])): g for g, m in meta.items()}
+    viol = []
     for g, vi, r in results:
         status[r["status"]] += 1
         if r["status"] == "machinery":
             raise C.MachineryError("replay harness failed:\n" + r["err"])
-        if r["status"] == "violation":
-            tag, init, hist, cmd, alts = meta[g]
-            bad.setdefault((tag, vi), set()).add(json.dumps([h["cmd"] for h in hist] + [cmd], sort_keys=True))
-    drift = collections.Counter()
-    derived = 0
-    for g, vi, r in results:
         for d in r.get("drift", []):
             drift[d] += 1
-        if r["status"] != "violation":
-            continue
+        if r["status"] == "violation":
+            viol.append((len(meta[g][2]), g, vi, r))
+    viol.sort(key=lambda v: v[:3])
+    roots, cache, derived = {}, {}, 0
+
+    def recheck(g, vi):
+        if (g, vi) not in cache:
+            tag, init, hist, cmd, alts = meta[g]
+            cache[(g, vi)] = replay_group(init, vi, hist, cmd, alts)
+        return cache[(g, vi)]
+
+    def emit(g, vi, r):
+        tag, init, hist, cmd, alts = meta[g]
+        for key, desc in r["findings"]:
+            d = f"[{tag} {VARIANTS[vi]['name']}] history " + "; ".join(_show(h["cmd"]) for h in hist) + " | " + desc
+            run.report(key, d, dict(init=init, variant=vi, hist=hist, cmd=cmd, alts=alts))
+
+    for _, g, vi, r in viol:
+        cache[(g, vi)] = r
+    for _, g, vi, r in viol:
         tag, init, hist, cmd, alts = meta[g]
         cmds = [h["cmd"] for h in hist]
-        if any(json.dumps(cmds[:k], sort_keys=True) in bad[(tag, vi)] for k in range(1, len(cmds) + 1)):
+        rs = roots.setdefault((tag, vi), set())
+        if any(J(cmds[:k]) in rs for k in range(1, len(cmds) + 1)):
             derived += 1
             continue
-        for key, desc in r["findings"]:
-            d = f"[{tag} {VARIANTS[vi]['name']}] history " + "; ".join(_show(c) for c in cmds) + " | " + desc
-            run.report(key, d, dict(init=init, variant=vi, hist=hist, cmd=cmd, alts=alts))
+        for k in range(1, len(cmds) + 1):
+            gk = index.get((tag, J(cmds[:k - 1]), J(cmds[k - 1])))
+            rk = recheck(gk, vi) if gk is not None else None
+            if rk and rk["status"] == "violation":
+                rs.add(J(cmds[:k]))
+                emit(gk, vi, rk)
+                derived += 1
+                break
+        else:
+            rs.add(J(cmds + [cmd]))
+            emit(g, vi, r)
     run.notes["replay_status"] = dict(status)
     run.notes["violations_that_follow_an_earlier_violating_step"] = derived
     run.notes["model-drift"] = dict(drift)
